@@ -784,3 +784,17 @@ Proof.
   - check_inv H as Hp. bind_inv H as h1 Hh1. inversion H; subst. reflexivity.
   - check_inv H as Hp. apply receive_cw20_books in H. tauto.
 Qed.
+
+Theorem convert_moves_between_pools w h self amount user h' out :
+  (convert_stsei_bsei w h self amount user = Some (h', out) ->
+   exists h1 d, slashing w self h = Some h1 /\
+     hs_bb (h_state h') = hs_bb (h_state h1) + d /\ hs_bst (h_state h') + d = hs_bst (h_state h1) /\
+     booked h' = booked h1 /\ NoDU out) /\
+  (convert_bsei_stsei w h self amount user = Some (h', out) ->
+   exists h1 d, slashing w self h = Some h1 /\
+     hs_bb (h_state h') + d = hs_bb (h_state h1) /\ hs_bst (h_state h') = hs_bst (h_state h1) + d /\
+     booked h' = booked h1 /\ NoDU out).
+Proof.
+  split; [exact (convert_stsei_bsei_books w h self amount user h' out)
+         | exact (convert_bsei_stsei_books w h self amount user h' out)].
+Qed.
